@@ -126,7 +126,7 @@ def run(sim: Sim) -> None:
     gaps = games.gap_functions()
     gap_name = sim.pick(sorted(gaps) if n < 6 else ["l1_norm", "linf_norm", "l2_norm"], "gap")
     all_expl = games.explorable_ids(n)
-    budget = None if not sim.flip(1, 3, "budget?") else 1 + sim.choose(len(all_expl), "budget")
+    budget = None if not sim.flip(1, 3, "budget?") else sim.choose(len(all_expl) + 1, "budget")
     prelude.warm_process(sim)
     n_envs = 1 + sim.choose(2, "environments-in-this-process")
     n_extra = sim.choose(min(4, len(all_expl) - 1), "initially-known-extras") if sim.flip(1, 2, "extras?") else 0
